@@ -344,9 +344,13 @@ messageTypeSwitching:
 		err := m.SaveSession()
 		check(err)
 
+		// the server rejected exactly one message: only its sender has to repeat the request under the new
+		// salt. the entry is forgotten first, the repeated request registers itself under its new msg_id
 		m.mutex.Lock()
-		for _, k := range m.responseChannels.Keys() {
-			v, _ := m.responseChannels.Get(k)
+		badMsgID := int(message.BadMsgID)
+		if v, ok := m.responseChannels.Get(badMsgID); ok {
+			m.responseChannels.Delete(badMsgID)
+			m.expectedTypes.Delete(badMsgID)
 			v <- &errorSessionConfigsChanged{}
 		}
 		m.mutex.Unlock()
